@@ -185,6 +185,77 @@ def part_b(rep, tier):
     rep.cov['runs'] = len(items)
     rep.cov['runs_in_which_sharing_arose'] = nshared
     S.cleanup(items)
+    light_runs(rep, tier)
+
+
+ELIM = ('(declare-const a Int)\n(declare-const b Int)\n'
+        '(declare-const c Int)\n(declare-const d Int)\n'
+        '(assert (> (+ a 1) 0))\n(assert (< (* a 2) (+ a c)))\n'
+        '(assert (= a b))\n(assert (> (+ c d) (- c 1)))\n'
+        '(assert (= c (+ d 1)))\n')
+
+
+def light_runs(rep, tier):
+    """Runs observed WITHOUT creating a node in ddSMT's main process
+    (launcher light mode), with only the sharing mutator enabled: the ids the
+    main process draws for re-duplication then come right after those the
+    workers drew for the parents they rebuilt.  The recorded inputs of every
+    producer / generator and every (argument, result) of reduplicate are
+    judged by TLC (Conform: ReduplicateOK, DistinctIds)."""
+    import conform
+    import runs
+    cases, what = [], {}
+
+    def fix(fr):
+        def go(n):
+            return {'id': n['id'], 't': n['t'], 'd': conform.enc_text(n['d']),
+                    'k': [go(c) for c in n['k']]}
+        return [go(n) for n in fr]
+
+    cfgs = [('hierarchical', 1), ('hierarchical', 3), ('ddmin', 2),
+            ('hybrid', 2)]
+    for k, (st, j) in enumerate(cfgs):
+        wd = common.subscratch(f'c13-light{k}')
+        r = runs.run_ddsmt(wd, ELIM, {'mode': 'always', 'delay_ms': 1},
+                           ['--strategy', st, '-j', str(j), '--disable-all',
+                            '--eliminate-variables'],
+                           env_extra={'VERIF_LIGHT': '1'}, timeout=120)
+        rep.count()
+        if r.timed_out or r.status != 0:
+            raise common.MachineryError(
+                f'light run {st} -j {j} failed: status {r.status}')
+        for e in r.events:
+            if e['ev'] in ('sweep', 'round') and e.get('forest') is not None:
+                cid = len(cases)
+                f = fix(e['forest'])
+                cases.append({'cid': cid, 'kind': 'redup', 'f': f, 'g': f})
+                what[cid] = (st, j, 'input of a ' + (
+                    'producer' if e['ev'] == 'sweep' else 'task generator'),
+                    e['base'])
+            elif e['ev'] == 'redup' and e.get('f') is not None \
+                    and e.get('g') is not None:
+                cid = len(cases)
+                cases.append({'cid': cid, 'kind': 'redup', 'f': fix(e['f']),
+                              'g': fix(e['g'])})
+                what[cid] = (st, j, 'result of reduplicate', None)
+                if not e['before_distinct']:
+                    rep.nontrivial('light:' + common.digest([st, j, cid]))
+        import shutil
+        shutil.rmtree(wd, ignore_errors=True)
+    fails = conform.judge(rep, cases, 'c13-light')
+    rep.cov['light_run_cases_judged'] = len(cases)
+    seen = set()
+    for cid, clause in sorted(fails.items()):
+        st, j, where, base = what[cid]
+        if (st, j, where) in seen:
+            continue
+        seen.add((st, j, where))
+        rep.violation(
+            f'run:light:{clause}:{where.replace(" ", "-")}:{st}',
+            f'--strategy {st} -j {j} --disable-all --eliminate-variables, '
+            f'observed without creating nodes in the main process: the '
+            f'{where} fails {clause} (an identity at two positions)',
+            {'forest': cases[cid]['f'], 'obs': None, 'light': [st, j]})
 
 
 def main():
@@ -204,6 +275,9 @@ def main():
     if a.replay:
         with open(a.replay) as f:
             r = json.load(f)['replay']
+        if r.get('light'):
+            light_runs(rep, a.tier)
+            return rep.finish()
         bad = check_redup(nodes, r['forest'], r['obs'])
         print(bad)
         if bad:
